@@ -75,4 +75,144 @@ theorem doEncode_open (p : Profile) (c : Codec) (asn hold rid : Nat) (caps : Lis
     rw [addU8_ok p _ _ (by omega)]
     simp only [Out.bind_ok, Out.pure_eq]
 
+theorem openBody_parts (t hold rid : Nat) (tail : Bytes) :
+    let b := [4] ++ be16 t ++ be16 hold ++ be32 rid ++ tail
+    b.take 1 = [4] ∧ (b.drop 1).take 2 = be16 t ∧ (b.drop 3).take 2 = be16 hold ∧
+    (b.drop 5).take 4 = be32 rid ∧ b.drop 9 = tail ∧ b.length = 9 + tail.length := by
+  intro b
+  have e : b = 4 :: (be16 t ++ (be16 hold ++ (be32 rid ++ tail))) := by simp [b]
+  refine ⟨by rw [e]; rfl, ?_, ?_, ?_, ?_, ?_⟩
+  · rw [e]; simp only [List.drop_succ_cons, List.drop_zero]; exact List.take_left' (be16_length _)
+  · rw [show b = ([4] ++ be16 t) ++ (be16 hold ++ (be32 rid ++ tail)) by simp [b], List.drop_left' (by simp)]
+    exact List.take_left' (be16_length _)
+  · rw [show b = ([4] ++ be16 t ++ be16 hold) ++ (be32 rid ++ tail) by simp [b], List.drop_left' (by simp)]
+    exact List.take_left' (be32_length _)
+  · rw [show b = ([4] ++ be16 t ++ be16 hold ++ be32 rid) ++ tail by simp [b]]
+    exact List.drop_left' (by simp)
+  · simp [b]; omega
+
+theorem lastAs4_fold (caps : List Cap) (n0 : Nat) (o0 : Option Nat) (h0 : ∀ a, o0 = some a → n0 = a) :
+    ∀ a, caps.foldl (fun n c => match c with | .as4 a => some a | _ => n) o0 = some a →
+      caps.foldl (fun n c => match c with | .as4 a => a | _ => n) n0 = a := by
+  induction caps generalizing n0 o0 with
+  | nil => intro a h; exact h0 a h
+  | cons c cs ih =>
+      intro a h
+      simp only [List.foldl_cons] at h ⊢
+      cases c with
+      | as4 x => exact ih x (some x) (by intro a' ha'; injection ha') a h
+      | mp f => exact ih n0 o0 h0 a h
+      | rr => exact ih n0 o0 h0 a h
+      | enh l => exact ih n0 o0 h0 a h
+      | em => exact ih n0 o0 h0 a h
+      | gr f t l => exact ih n0 o0 h0 a h
+      | ap l => exact ih n0 o0 h0 a h
+      | err => exact ih n0 o0 h0 a h
+      | llgr l => exact ih n0 o0 h0 a h
+      | fqdn hh d => exact ih n0 o0 h0 a h
+      | unk cd b => exact ih n0 o0 h0 a h
+
+theorem lastAs4_of (caps : List Cap) (a : Nat) (h : lastAs4? caps = some a) : lastAs4 caps = a :=
+  lastAs4_fold caps 0 none (by intro a' ha'; cases ha') a h
+
+theorem lastAs4_canon (caps : List Cap) : lastAs4 (caps.map canonCap) = lastAs4 caps := by
+  unfold lastAs4
+  rw [List.foldl_map]
+  congr 1
+  funext n c
+  cases c <;> rfl
+
+theorem lastAs4?_nil : lastAs4? [] = none := rfl
+
+theorem parseOpen_enc (asn hold rid : Nat) (caps : List Cap)
+    (hasn : asn < 4294967296) (hhold : hold < 65536) (hh12 : hold ≠ 1 ∧ hold ≠ 2)
+    (hrid : rid < 4294967296) (hr0 : rid ≠ 0 ∧ rid ≠ 4294967295 ∧ rid / 268435456 ≠ 14)
+    (hcaps : ∀ x ∈ caps, capOk x = true) (hs : (caps.flatMap capBytes).length + 2 < 256)
+    (hrec : if asn > 65535 ∨ asn = TRANS_ASN then lastAs4? caps = some asn else True) :
+    parseOpen (frame 1 (openBody asn hold rid caps)) = .msg (.open asn hold rid (caps.map canonCap)) := by
+  have htr : (if asn > 65535 then TRANS_ASN else asn) < 65536 := by
+    split
+    · simp [TRANS_ASN]
+    · omega
+  -- uniform description of the body
+  have hbody : ∃ tail, openBody asn hold rid caps =
+        [4] ++ be16 (if asn > 65535 then TRANS_ASN else asn) ++ be16 hold ++ be32 rid ++ tail ∧
+      tail = (if caps.isEmpty then [0]
+              else [(caps.flatMap capBytes).length + 2, 2, (caps.flatMap capBytes).length] ++ caps.flatMap capBytes) := by
+    refine ⟨_, ?_, rfl⟩
+    unfold openBody openFixed
+    split <;> simp [List.append_assoc]
+  obtain ⟨tail, hb, htail⟩ := hbody
+  obtain ⟨p1, p2, p3, p4, p5, plen⟩ := openBody_parts (if asn > 65535 then TRANS_ASN else asn) hold rid tail
+  unfold parseOpen
+  rw [frame_body, hb]
+  have htl : 1 ≤ tail.length := by rw [htail]; split <;> simp
+  have hl29 : ¬ (frame 1 ([4] ++ be16 (if asn > 65535 then TRANS_ASN else asn) ++ be16 hold ++ be32 rid ++ tail)).length < 29 := by
+    rw [frame_length, plen]; omega
+  simp only [hl29, if_false, p1, beNat_single, ne_eq, not_true_eq_false, p2, beNat_be16 htr, p3, beNat_be16 hhold,
+    p4, beNat_be32 hrid]
+  have hh : ¬ (hold = 1 ∨ hold = 2) := by omega
+  have hr : ¬ (rid = 0 ∨ rid = 4294967295 ∨ rid / 268435456 = 14) := by omega
+  simp only [hh, if_false, hr]
+  have hd10 : ∀ n, List.drop (9 + n) ([4] ++ be16 (if asn > 65535 then TRANS_ASN else asn) ++ be16 hold ++ be32 rid ++ tail)
+      = tail.drop n := by
+    intro n; rw [← List.drop_drop, p5]
+  by_cases he : caps.isEmpty = true
+  · -- no capability: optional parameter length 0
+    have hc0 : caps = [] := List.isEmpty_iff.mp he
+    have ht : tail = [0] := by rw [htail, he]; rfl
+    have hasn' : ¬ (asn > 65535 ∨ asn = TRANS_ASN) := by
+      intro hc; rw [if_pos hc, hc0, lastAs4?_nil] at hrec; cases hrec
+    have htr' : (if asn > 65535 then TRANS_ASN else asn) = asn := by
+      rw [if_neg (by omega)]
+    have e9 : (([4] ++ be16 (if asn > 65535 then TRANS_ASN else asn) ++ be16 hold ++ be32 rid ++ tail).drop 9).take 1 = [0] := by
+      rw [p5, ht]; rfl
+    rw [e9]
+    simp only [beNat_single, frame_length, plen, ht, List.length_cons, List.length_nil]
+    have e10 : List.take 0 (List.drop 10 ([4] ++ be16 (if asn > 65535 then TRANS_ASN else asn) ++ be16 hold ++ be32 rid ++ [0])) = [] := by simp
+    simp only [show ¬ (19 + (9 + (0 + 1)) < 29 + 0) by omega, if_false, e10, optParams, capTlvs, openParams, htr']
+    have : ¬ asn = TRANS_ASN := by omega
+    simp [this, hc0]
+  · -- one capability parameter
+    have he' : caps.isEmpty = false := by simpa using he
+    have ht : tail = [(caps.flatMap capBytes).length + 2, 2, (caps.flatMap capBytes).length] ++ caps.flatMap capBytes := by
+      rw [htail, he']; rfl
+    have e9 : (([4] ++ be16 (if asn > 65535 then TRANS_ASN else asn) ++ be16 hold ++ be32 rid ++ tail).drop 9).take 1
+        = [(caps.flatMap capBytes).length + 2] := by
+      rw [p5, ht]; rfl
+    rw [e9]
+    simp only [beNat_single, frame_length, plen]
+    have hlt : tail.length = 3 + (caps.flatMap capBytes).length := by rw [ht]; simp; omega
+    have hc1 : ¬ (19 + (9 + tail.length) < 29 + ((caps.flatMap capBytes).length + 2)) := by omega
+    simp only [hc1, if_false]
+    have e10 : List.take ((caps.flatMap capBytes).length + 2)
+        (List.drop 10 ([4] ++ be16 (if asn > 65535 then TRANS_ASN else asn) ++ be16 hold ++ be32 rid ++ tail))
+        = [2, (caps.flatMap capBytes).length] ++ caps.flatMap capBytes := by
+      rw [show (10 : Nat) = 9 + 1 by rfl, hd10 1, ht]
+      simp only [List.cons_append, List.nil_append, List.drop_succ_cons, List.drop_zero]
+      apply List.take_of_length_le; simp; omega
+    rw [e10]
+    have hop : optParams ([2, (caps.flatMap capBytes).length] ++ caps.flatMap capBytes)
+        = some [(2, caps.flatMap capBytes)] := by
+      simp only [optParams, List.cons_append, List.nil_append]
+      rw [capTlvs]
+      simp [capTlvs]
+    rw [hop]
+    simp only [openParams, if_true, capTlvs_enc caps (capValue_lt caps (by omega)), decodeCaps_enc caps hcaps,
+      List.nil_append]
+    -- the AS number
+    by_cases hw : asn > 65535 ∨ asn = TRANS_ASN
+    · rw [if_pos hw] at hrec
+      have hl4 := lastAs4_of caps asn hrec
+      have htr' : (if asn > 65535 then TRANS_ASN else asn) = TRANS_ASN := by
+        rcases hw with h | h
+        · rw [if_pos h]
+        · rw [h]; simp
+      rw [htr']
+      simp [lastAs4_canon, hl4]
+    · have htr' : (if asn > 65535 then TRANS_ASN else asn) = asn := by rw [if_neg (by omega)]
+      have : ¬ asn = TRANS_ASN := by omega
+      rw [htr']
+      simp [this]
+
 end Rbgp.Enc
